@@ -305,7 +305,11 @@ func (f *File) AddChild(child Box, boxStartPos uint64) {
 	case *EmsgBox:
 		// emsg box is only added at the start of a fragment (inside a segment).
 		// The case that a segment starts without an emsg is also handled.
-		f.startSegmentIfNeeded(box, boxStartPos)
+		if lastSeg := f.LastSegment(); lastSeg == nil || lastSeg.LastFragment() == nil ||
+			lastSeg.LastFragment().Moof != nil {
+			// Only check for a new segment if the fragment has not already been started by another emsg box
+			f.startSegmentIfNeeded(box, boxStartPos)
+		}
 		lastSeg := f.LastSegment()
 		if len(lastSeg.Fragments) == 0 {
 			lastSeg.AddFragment(&Fragment{StartPos: boxStartPos})
